@@ -24,14 +24,48 @@ LEVEL = "exploration"
 SHARDS = {"quick": 8, "thorough": 16}
 BUDGET = {"quick": 25.0, "thorough": 400.0}
 REQUIRE = {
-    "cases_judged": 300,
-    "c1_cursor_evals": 1000,
-    "c1_cursor_evals_not_none": 200,
-    "c2_mouse_cells": 20000,
+    # oracle evaluations per clause (quick observes >= 10x these)
+    "cases_judged": 150,
+    "c1_cursor_evals": 500,
+    "c1_cursor_evals_on_chain": 300,
+    "c1_cursor_evals_not_none": 300,
+    "c2_mouse_cells": 4000,
     "c2b_button1_cells": 300,
-    "c3_move_evals": 2000,
+    "c3_move_evals": 500,
     "c3_move_accepted_row_checked": 300,
     "c3_move_refused_agreed": 100,
+    # every container/decoration of the statement was part of judged cases
+    **{f"judged_with:{k}": 8 for k in ("Pile", "Columns", "Frame", "Filler", "Padding", "Overlay", "BoxAdapter", "LineBox", "AttrMap", "GridFlow", "ListBox", "Edit")},
+    # mechanism functions reached
+    **{
+        f"reach:widget.{m}": 20
+        for m in (
+            "pile.Pile.mouse_event",
+            "pile.Pile.move_cursor_to_coords",
+            "pile.Pile.get_cursor_coords",
+            "columns.Columns.mouse_event",
+            "columns.Columns.move_cursor_to_coords",
+            "columns.Columns.get_cursor_coords",
+            "frame.Frame.mouse_event",
+            "filler.Filler.mouse_event",
+            "filler.Filler.move_cursor_to_coords",
+            "filler.Filler.get_cursor_coords",
+            "padding.Padding.mouse_event",
+            "padding.Padding.move_cursor_to_coords",
+            "padding.Padding.get_cursor_coords",
+            "overlay.Overlay.mouse_event",
+            "box_adapter.BoxAdapter.mouse_event",
+            "box_adapter.BoxAdapter.move_cursor_to_coords",
+            "grid_flow.GridFlow.mouse_event",
+            "listbox.ListBox.mouse_event",
+            "edit.Edit.move_cursor_to_coords",
+        )
+    },
+    "reach:widget.frame.Frame.get_cursor_coords": 5,
+    "reach:widget.overlay.Overlay.get_cursor_coords": 5,
+    "reach:widget.listbox.ListBox.get_cursor_coords": 5,
+    "reach:widget.grid_flow.GridFlow.move_cursor_to_coords": 5,
+    "reach:canvas.Canvas.translate_coords": 1000,
 }
 RULE = (
     "seeded random JSON recipes over Pile/Columns/Frame/Filler/Padding/Overlay/BoxAdapter/LineBox/AttrMap/GridFlow/ListBox/"
